@@ -61,6 +61,9 @@ func zz13PreMasterSecret(pub, priv []byte, c elliptic.Curve) ([]byte, error) {
 // zzHello13 builds a DTLS 1.3 ClientHello handshake message (RFC 9147 5.3 layout): supported_versions{1.3},
 // supported_groups{x25519}, signature_algorithms{ecdsa_secp256r1_sha256}, key_share{x25519, 1 byte} and,
 // if cookie != nil, a trailing cookie extension with extension_data uint16 length + cookie.
+// zzTwoGroups: the client also supports secp256r1, which the server prefers - the HelloRetryRequest then selects a group.
+var zzTwoGroups bool
+
 func zzHello13(seq uint16, version, random, sid, suite, comp, share, cookie []byte) []byte {
 	body := []byte{}
 	body = append(body, version...)
@@ -73,6 +76,10 @@ func zzHello13(seq uint16, version, random, sid, suite, comp, share, cookie []by
 	body = append(body, byte(len(comp)))
 	body = append(body, comp...)
 	block := []byte{0, 43, 0, 3, 2, 0xfe, 0xfc, 0, 10, 0, 4, 0, 2, 0, 0x1d, 0, 13, 0, 4, 0, 2, 4, 3, 0, 51, 0, 7, 0, 5, 0, 0x1d, 0, 1}
+	if zzTwoGroups {
+		// supported_groups x25519, secp256r1 - but a key share for x25519 only
+		block = []byte{0, 43, 0, 3, 2, 0xfe, 0xfc, 0, 10, 0, 6, 0, 4, 0, 0x1d, 0, 0x17, 0, 13, 0, 4, 0, 2, 4, 3, 0, 51, 0, 7, 0, 5, 0, 0x1d, 0, 1}
+	}
 	block = append(block, share...)
 	if cookie != nil {
 		block = append(block, 0, 44, 0, byte(len(cookie)+2), 0, byte(len(cookie)))
@@ -102,7 +109,11 @@ func zzIsRetryRequest(p *dtlsflight.Packet, issued []byte) bool {
 	want := append([]byte{0xfe, 0xfd}, magic...)
 	want = append(want, 0, 0x13, 0x01, 0)
 	n := len(issued)
-	want = append(want, 0, byte(12+n), 0, 43, 0, 2, 0xfe, 0xfc, 0, 44, 0, byte(n+2), 0, byte(n))
+	if zzTwoGroups {
+		want = append(want, 0, byte(18+n), 0, 43, 0, 2, 0xfe, 0xfc, 0, 51, 0, 2, 0, 0x17, 0, 44, 0, byte(n+2), 0, byte(n))
+	} else {
+		want = append(want, 0, byte(12+n), 0, 43, 0, 2, 0xfe, 0xfc, 0, 44, 0, byte(n+2), 0, byte(n))
+	}
 	want = append(want, issued...)
 	if len(raw) != handshake.HeaderLength+len(want) {
 		return false
@@ -123,7 +134,7 @@ func zzIsRetryRequest(p *dtlsflight.Packet, issued []byte) bool {
 // expiry writes nothing; (3) a HelloRetryRequest is written only in the step that handled the first
 // ClientHello; (4) a wrong second ClientHello ends the handshake with an alert and nothing more written.
 //
-//symgo:entry covers=ack_in_flight2,hrr_sent,timer_in_flight0,timer_in_flight2,hello_again_in_flight2,accepted,rejected
+//symgo:entry covers=ack_in_flight2,hrr_sent,hrr_selects_group,timer_in_flight0,timer_in_flight2,hello_again_in_flight2,accepted,rejected
 func zzFsm13OnlyCookieRequest() {
 	rand.Reader = zzRand{}
 	cfg := &dtlsconfig.HandshakeConfig{
@@ -131,6 +142,13 @@ func zzFsm13OnlyCookieRequest() {
 		EllipticCurves:            []elliptic.Curve{elliptic.X25519},
 		Log:                       zzLogger{},
 		InitialRetransmitInterval: time.Second,
+	}
+	// the cookie request may also have to select a key-share group (the client offered a share only for a group the
+	// server does not prefer): it is a cookie request all the same - sent once per ClientHello, never by the timer
+	zzTwoGroups = zzsymChoice("retry_selects_group", 2) == 1
+	if zzTwoGroups {
+		cfg.EllipticCurves = []elliptic.Curve{elliptic.P256, elliptic.X25519}
+		zzsymCover("hrr_selects_group")
 	}
 	st13 := dtlsstate.NewState13(false)
 	state := &st13
@@ -174,8 +192,8 @@ func zzFsm13OnlyCookieRequest() {
 	n := zzsymParam("NEVENTS")
 	for i := 0; i < n; i++ {
 		ev := zzsymChoice("event", 4) // 0 timer, 1 first ClientHello (again), 2 second ClientHello, 3 ACK-only record
-		if ev == 2 && !haveCH1 {
-			return
+		if ev == 2 && (!haveCH1 || zzTwoGroups) {
+			return // (with a selected group the second ClientHello legitimately differs in its key share: not modelled)
 		}
 		before := len(conn.sent)
 		inFlight2 := fsm.currentFlight == dtlsflight13.Flight2
